@@ -126,9 +126,45 @@ func checkC12(c *Ctx, r *Report) {
 		_ = mapKey
 		for _, ret := range returnsOf(f) {
 			if isResultOfCall(retVal(ret, 1), 0, "(context.Context).Err") != nil {
-				w, n := (&Cut{Fn: f, From: sels, Target: isInstr(ret), Sep: isNotifWrite}).Run(c)
+				w, n := (&Cut{Fn: f, From: sels, Target: isInstr(ret), EdgeCut: failCut(ret), Sep: isNotifWrite}).Run(c)
 				r1.Check(w == "" && len(sels) == 1, "waitForDirectConn: cancelled waiter removes its channel before returning", instrPos(ret), n+1, "", "a cancelled waiter leaves its channel registered", w)
 			}
+		}
+		// ... and it is its own channel that goes: a removal by predicate (slices.DeleteFunc) deletes exactly the
+		// elements equal to the waiter's channel (a "keep" predicate there removes every other waiter, who then sleeps
+		// through the direct connection's arrival)
+		for _, df := range callsIn(f, "slices.DeleteFunc") {
+			a := df.Common().Args
+			pred := installedFunc(a[1])
+			if pred == nil || pred.Blocks == nil || len(pred.Params) != 1 {
+				r1.OK("waitForDirectConn: the removal predicate answers true exactly for the waiter's own channel", instrPos(df.(ssa.Instruction)), 1, "not decided: predicate not resolved")
+				continue
+			}
+			isOwnCh := func(v ssa.Value) bool {
+				// (resolved relative to waitForDirectConn: the removal may sit in a helper that is handed the channel)
+				r := false
+				asRoot(f, func() {
+					r = derivesFrom(v, func(x ssa.Value) bool { _, isMk := x.(*ssa.MakeChan); return isMk && x.Parent() == f })
+				})
+				return r
+			}
+			eq := func(v ssa.Value) (bool, bool) {
+				bo, isB := v.(*ssa.BinOp)
+				if !isB || (bo.Op != token.EQL && bo.Op != token.NEQ) {
+					return false, false
+				}
+				x, y := strip(bo.X), strip(bo.Y)
+				isArg := func(v ssa.Value) bool { return v == ssa.Value(pred.Params[0]) || isParamCellLoad(c, v, pred.Params[0]) }
+				if (isArg(x) && isOwnCh(y)) || (isArg(y) && isOwnCh(x)) {
+					return true, bo.Op == token.EQL
+				}
+				return false, false
+			}
+			var tab map[int]int
+			var okT bool
+			asRoot(pred, func() { tab, okT = boolReturnTable(pred, []atomPred{eq}, 0) })
+			r1.Check(okT && tab[1] == 2 && tab[0] == 1, "waitForDirectConn: the removal predicate answers true exactly for the waiter's own channel", instrPos(df.(ssa.Instruction)), 2, "",
+				"a waiter that gives up removes the other waiters (or nobody): they are never woken when the direct connection arrives, or a stale channel stays registered", fmt.Sprint(tab))
 		}
 		// atomic check-and-register: no Unlock between the table lookup and the registration
 		regs := findInstrs(f, isNotifWrite)
@@ -207,22 +243,24 @@ func checkC12(c *Ctx, r *Report) {
 			r2.Check(isResultOfCall(dcall.Common().Args[0], 0, bestK) != nil, "bestAcceptableConnToPeer: isDirectConn applied to the selected conn", instrPos(dcall.(ssa.Instruction)), 1, "", "", "")
 		}
 	}
+	isProxyAns := func(v ssa.Value) (bool, bool) {
+		return isResultOfCall(v, 0, "(core/transport.*).Proxy") != nil, true
+	}
 	if f := r2.need(swarmP + ".isDirectConn"); f != nil {
-		for _, ret := range returnsOf(f) {
-			leavesOK := true
-			sawProxy := false
-			for _, l := range phiLeaves(ret.Results[0]) {
-				if b, ok := constBool(l); ok && !b {
-					continue
-				}
-				base, neg := stripNot(l)
-				if neg && isResultOfCall(base, 0, "(core/transport.*).Proxy") != nil {
-					sawProxy = true
-					continue
-				}
-				leavesOK = false
-			}
-			r2.Check(leavesOK && sawProxy, "isDirectConn: c != nil && !Transport().Proxy()", instrPos(ret), 1, "", "", "")
+		// the answer as a function of "c != nil" and "the connection's transport is a proxy", however it is written
+		atoms := []atomPred{
+			func(v ssa.Value) (bool, bool) {
+				x, nilOnTrue, ok := nilCmp(v)
+				return ok && isParamVar(c, x, "c"), !nilOnTrue
+			},
+			isProxyAns,
+		}
+		tab, okT := boolReturnTable(f, atoms, 0)
+		// assignment bits: 0 = c != nil, 1 = proxy
+		r2.Check(okT && tab[1] == 2 && tab[0] == 1 && tab[2] == 1 && tab[3] == 1, "isDirectConn: c != nil && !Transport().Proxy()", f.Pos(), 4, "", "a relayed (or missing) connection is taken for a direct one", fmt.Sprint(tab))
+		for _, pc := range callsIn(f, "(core/transport.*).Proxy") {
+			tr := isResultOfCall(callArgs(pc)[0], 0, "(core/transport.*).Transport", "(core/network.*).Transport")
+			r2.Check(tr != nil && derivesFrom(callArgs(tr)[0], func(v ssa.Value) bool { return isParamVar(c, v, "c") }), "isDirectConn: the transport asked is the connection's", instrPos(pc.(ssa.Instruction)), 1, "", "", "")
 		}
 	}
 	if f := r2.need("(*" + swarmP + ".Swarm).addrsForDial"); f != nil {
@@ -254,12 +292,13 @@ func checkC12(c *Ctx, r *Report) {
 		}
 	}
 	if f := r2.need("(*" + swarmP + ".Swarm).nonProxyAddr"); f != nil {
-		ok := false
-		for _, ret := range returnsOf(f) {
-			base, neg := stripNot(ret.Results[0])
-			ok = neg && isResultOfCall(base, 0, "(core/transport.*).Proxy") != nil
+		tab, okT := boolReturnTable(f, []atomPred{isProxyAns}, 0)
+		okRecv := false
+		for _, pc := range callsIn(f, "(core/transport.*).Proxy") {
+			tf := isResultOfCall(callArgs(pc)[0], 0, "(*"+swarmP+".Swarm).TransportForDialing")
+			okRecv = tf != nil && isParamVar(c, callArgs(tf)[1], "addr")
 		}
-		r2.Check(ok, "nonProxyAddr: !TransportForDialing(addr).Proxy()", f.Pos(), 1, "", "", "")
+		r2.Check(okT && okRecv && tab[0] == 2 && tab[1] == 1, "nonProxyAddr: !TransportForDialing(addr).Proxy()", f.Pos(), 2, "", "", fmt.Sprint(tab))
 	}
 	// dial worker: a connection found by bestAcceptableConnToPeer(ctxX) is sent on the resch of the same request
 	nPairs := 0
@@ -302,7 +341,7 @@ func checkC12(c *Ctx, r *Report) {
 			if !isNilConst(retVal(ret, 0)) {
 				continue
 			}
-			if w, _ := (&Cut{Fn: f, Target: isInstr(ret), Sep: inSet(dials)}).Run(c); w != "" {
+			if w, _ := (&Cut{Fn: f, Target: isInstr(ret), EdgeCut: failCut(ret), Sep: inSet(dials)}).Run(c); w != "" {
 				shortcuts = append(shortcuts, ret) // reachable without dialing
 			}
 		}
@@ -367,7 +406,9 @@ func checkC12(c *Ctx, r *Report) {
 				w = "no caller"
 			}
 			for _, g := range hosts {
-				w1, n1 := (&Cut{Fn: g, Target: isInstr(st), EdgeCut: edgeNil(isCallResult(0, "(*"+"p2p/protocol/circuitv2/pb.StopMessage).GetLimit", "(*p2p/protocol/circuitv2/pb.HopMessage).GetLimit"), false)}).Run(c)
+				w1, n1 := (&Cut{Fn: g, Target: isInstr(st), EdgeCut: edgeNil(func(v ssa.Value) bool {
+					return isFieldOrGetter("p2p/protocol/circuitv2/pb.StopMessage.Limit")(v) || isFieldOrGetter("p2p/protocol/circuitv2/pb.HopMessage.Limit")(v)
+				}, false)}).Run(c)
 				n += n1
 				if w1 != "" {
 					w = w1
@@ -392,7 +433,9 @@ func checkC12(c *Ctx, r *Report) {
 		var lim []CFGEdge
 		for _, b := range blocksDeep(f) {
 			for s := range b.Succs {
-				if edgeNil(isCallResult(0, "(*p2p/protocol/circuitv2/pb.StopMessage).GetLimit", "(*p2p/protocol/circuitv2/pb.HopMessage).GetLimit"), false)(b, s) {
+				if edgeNil(func(v ssa.Value) bool {
+					return isFieldOrGetter("p2p/protocol/circuitv2/pb.StopMessage.Limit")(v) || isFieldOrGetter("p2p/protocol/circuitv2/pb.HopMessage.Limit")(v)
+				}, false)(b, s) {
 					lim = append(lim, CFGEdge{b, s})
 				}
 			}
@@ -437,6 +480,48 @@ func checkC12(c *Ctx, r *Report) {
 			if fn, isF := strip2(call.Common().Args[1]).(*ssa.Function); isF && fnKey(fn) == hpP+".isRelayAddress" {
 				ok = true
 			}
+		}
+		if !ok {
+			// ... or the filter written out: an address is kept (appended to what is returned) only past
+			// !isRelayAddress(that address), and only kept addresses are returned
+			apps := findInstrs(f, callPred("builtin.append"))
+			isRelay := func(v ssa.Value) bool { return isResultOfCall(v, 0, hpP+".isRelayAddress") != nil }
+			okLoop := len(apps) >= 1
+			for _, ap := range apps {
+				w, _ := (&Cut{Fn: f, Target: isInstr(ap), EdgeCut: edgeBool(isRelay, false)}).Run(c)
+				if w != "" {
+					okLoop = false
+				}
+				// the element appended is the one tested
+				for _, rc := range callsIn(f, hpP+".isRelayAddress") {
+					el := strip(ap.(*ssa.Call).Call.Args[1])
+					if sl, isSl := el.(*ssa.Slice); isSl { // append(kept, a) packs a into a one-element slice
+						el = strip(sl.X)
+					}
+					if !derivesFrom(el, func(v ssa.Value) bool { return v == strip(rc.Common().Args[0]) }) && !derivesFrom(ap.(*ssa.Call).Call.Args[1], func(v ssa.Value) bool { return v == strip(rc.Common().Args[0]) }) {
+						okLoop = false
+					}
+				}
+			}
+			for _, ret := range returnsOf(f) {
+				fromAppend := false
+				for _, l := range phiLeaves(retVal(ret, 0)) {
+					if isResultOfCall(strip(l), 0, "builtin.append") != nil {
+						fromAppend = true
+					} else if sl, isSl := strip(l).(*ssa.Slice); isSl {
+						// the empty prefix addrs[:0] the kept addresses are appended to
+						if k, isC := constInt(sl.High); !(isC && k == 0) {
+							okLoop = false
+						}
+					} else {
+						okLoop = false
+					}
+				}
+				if !fromAppend {
+					okLoop = false
+				}
+			}
+			ok = okLoop
 		}
 		r5.Check(ok, "removeRelayAddrs: DeleteFunc(addrs, isRelayAddress)", f.Pos(), 1, "", "", "")
 	}
@@ -559,6 +644,18 @@ func checkC12(c *Ctx, r *Report) {
 		m := map[string]bool{}
 		for _, call := range callsIn(fn, callee) {
 			m[ctxKeyDesc(callArgs(call)[argIdx])] = true
+		}
+		// a deprecated alias may simply hand its arguments to the option it stands for: that option's keys
+		for _, p := range pairs {
+			for _, sib := range p {
+				if g := c.Fn(netP + "." + sib); g != nil && g != fn {
+					for range callsIn(fn, netP+"."+sib) {
+						for _, call := range callsIn(g, callee) {
+							m[ctxKeyDesc(callArgs(call)[argIdx])] = true
+						}
+					}
+				}
+			}
 		}
 		var out []string
 		for k := range m {
